@@ -55,7 +55,7 @@ func C03(tier string) {
 	if tier == "thorough" {
 		steps = 1024
 	}
-	r.Rule(fmt.Sprintf("per space: 9+9 coefficients recovered by probing unit vectors; declared vs published chromaticities; uniform lattice {0..%d}^3/%d and geometric lattice G^3 (|G|=%d: 0, +/-2^-k, +/-1.5*2^-k, +/-(1+/-2^-k), k<=24) for additivity and both round trips; distinct = lattice points with at least two non-zero components", steps-1, steps-1, len(geoAxis())))
+	r.Rule(fmt.Sprintf("per space: 9+9 coefficients recovered by probing unit vectors; declared vs published chromaticities; uniform lattice {0..%d}^3/%d and geometric lattice G^3 (|G|=%d: 0, +/-2^-k, +/-1.5*2^-k, +/-(1+/-2^-k), k<=24) and uniform lattices over [-1,2]^3 (steps 1/64 and 1/100; thorough also 1/32, 1/63, 1/127, 1/128, 1/255) for additivity and both round trips; distinct = lattice points with at least two non-zero components", steps-1, steps-1, len(geoAxis())))
 
 	// Before any colour type is used in this process: ask the matrix generator
 	// for every space's declared primaries with OTHER white points, so that
@@ -202,6 +202,23 @@ func C03(tier string) {
 						}
 						if nz >= 2 {
 							distinct++
+						}
+					}
+				}
+			}
+			// uniform lattices over the out-of-range cube [-1,2]^3 with several steps
+			outSteps := []int{64, 100}
+			if tier == "thorough" {
+				outSteps = []int{32, 63, 64, 100, 127, 128, 255}
+			}
+			for _, st := range outSteps {
+				m := 3*st + 1
+				for a := shard; a < m; a += n {
+					for b := 0; b < m; b++ {
+						for c := 0; c < m; c++ {
+							p := linear.RGB{R: float32(a-st) / float32(st), G: float32(b-st) / float32(st), B: float32(c-st) / float32(st)}
+							checkRGB(p)
+							evals++
 						}
 					}
 				}
